@@ -46,12 +46,12 @@ for f in glob.glob('/tmp/seed-confirm/*.result'):
     t = open(f).read().strip().split(' ', 1)
     conf[t[0]] = t[1]
 det = {}
-if os.path.exists('/tmp/try-results/SUMMARY'):
-    for l in open('/tmp/try-results/SUMMARY'):
+if os.path.exists('/verif/tools/trial-logs/SUMMARY.txt'):
+    for l in open('/verif/tools/trial-logs/SUMMARY.txt'):
         p = l.split()
         if len(p) >= 4:
             det[(p[0], p[1])] = (int(p[2]) if p[2].isdigit() else 0, ' '.join(p[3:]))
-extra = json.load(open('/tmp/seed-extra.json')) if os.path.exists('/tmp/seed-extra.json') else {}
+extra = json.load(open('/verif/tools/seed_extra_results.json')) if os.path.exists('/tmp/seed-extra.json') else {}
 os.makedirs('/verif/seeded', exist_ok=True)
 for sid, (what, need) in sorted(needs.items()):
     src = '/tmp/seed-out/' + sid
